@@ -186,7 +186,8 @@ int lltd_port_memcmp(const void *a, const void *b, size_t num) { return memcmp(a
 void lltd_port_sleep_ms(uint32_t ms) {
     if (vp_thread_mode) return;
     char tmp[64];
-    int n = snprintf(tmp, sizeof tmp, "%s{\"k\":\"s\",\"ms\":%u}", ob_items ? "," : "", ms);
+    /* logged 31-bit safe (TLC integers); the clock still advances by the real value */
+    int n = snprintf(tmp, sizeof tmp, "%s{\"k\":\"s\",\"ms\":%u}", ob_items ? "," : "", ms > 2000000000u ? 2000000000u : ms);
     ob_add(tmp, (size_t)n);
     ob_items++;
     vp_now_ms += ms;
